@@ -29,7 +29,7 @@ PROP = "C07"
 PROPS_MODULE = "BiotiteModel.Props.C07"
 DRIVER_MODULE = "BiotiteModel.Driver.C07"
 EXT_MODULES = ["biotite.structure.io.pdb.hybrid36"]
-GEN_FILES = ["BiotiteModel/Gen/C07.lean"]
+GEN_FILES = ["BiotiteModel/Gen/C07.lean", "BiotiteModel/Gen/C07Logic.lean"]
 RULE = ("seeded atom arrays / stacks (1-12 atoms, 1-3 models, optional atom_id/b_factor/occupancy/charge/bonds, "
         "hybrid-36 on/off) whose values sit on the column boundaries (float32 neighbours of -999.9995/9999.9995, "
         "B-factors around 999.995/-99.995, ids around 99999/9999/-9999/-999 and the hybrid-36 range borders, 0-4 "
@@ -335,7 +335,254 @@ def gen_lean():
          for k, v in sorted(asc.items())] + [
         "def radixFactors : List String := [" + ", ".join(f'"{r}"' for r in radix) + "]",
         "end BiotiteModel.Gen.C07", ""]
-    return {"BiotiteModel/Gen/C07.lean": "\n".join(body)}
+    return {"BiotiteModel/Gen/C07.lean": "\n".join(body), "BiotiteModel/Gen/C07Logic.lean": gen_logic(tree, psrc, paths)}
+
+
+# ---------------------------------------------------------------- translator, part 2: guards, literals, defaults, error classes
+def _norm(node):
+    """source text of an expression without blanks (blanks inside string literals are kept)"""
+    t = ast.unparse(node)
+    out, q = [], None
+    for ch in t:
+        if q:
+            out.append(ch)
+            if ch == q:
+                q = None
+        elif ch in "'\"":
+            q = ch
+            out.append(ch)
+        elif ch != " ":
+            out.append(ch)
+    return "".join(out)
+
+
+def _lstr(x):
+    return json.dumps(x, ensure_ascii=True)
+
+
+def _llist(xs):
+    return "[" + ", ".join(_lstr(x) for x in xs) + "]"
+
+
+def _raises(fn):
+    """class names of every `raise X(...)` in a function, in source order"""
+    out = []
+    for n in ast.walk(fn):
+        if isinstance(n, ast.Raise) and n.exc is not None:
+            e = n.exc.func if isinstance(n.exc, ast.Call) else n.exc
+            out.append(ast.unparse(e))
+    return out
+
+
+def _defaults(fn):
+    a = fn.args
+    names = [x.arg for x in a.args]
+    ds = [None] * (len(names) - len(a.defaults)) + [ast.unparse(d) for d in a.defaults]
+    return [(n, d) for n, d in zip(names, ds) if n not in ("self", "cls")]
+
+
+def _pyx_function(src, name):
+    m = re.search(r"^(?:cdef [\w ]+|def) " + name + r"\(.*?(?=^(?:@|cdef \w|def )|\Z)", src, re.S | re.M)
+    if not m:
+        raise ValueError(f"hybrid36.pyx: function {name} not found")
+    body = re.sub(r'"""(.*?)"""', "", m.group(0), flags=re.S)
+    lines = [re.sub(r"\s+", " ", l.split("#")[0]).strip() for l in body.splitlines()]
+    # message texts are not logic: lines that are only a string literal are left out
+    return [l for l in lines if l and not re.match(r"^f?[\"']", l)]
+
+
+def gen_logic(tree, psrc, paths):
+    ss = _find_func(tree, "set_structure")
+    chk = _find_func(tree, "_check_pdb_compatibility")
+    numchk = _find_func(tree, "_check_number_columns")
+    gs = _find_func(tree, "get_structure")
+    idx = _find_func(tree, "_index_models_and_atoms")
+    sel = _find_func(tree, "_get_atom_record_indices_for_model")
+    gml = _find_func(tree, "_get_model_length")
+    gb = _find_func(tree, "_get_bonds")
+    sb = _find_func(tree, "_set_bonds")
+    rd = _find_func(tree, "read")
+    facts = {}
+    # --- writer
+    for n in ast.walk(ss):
+        if isinstance(n, ast.Call) and ast.unparse(n.func) == "np.where" and len(n.args) == 3:
+            a0 = ast.unparse(n.args[0])
+            if a0 == "array.hetero":
+                facts["recordNames"] = [n.args[1].value, n.args[2].value]
+            elif isinstance(n.args[0], ast.Compare) and "_PDB_MAX" in ast.unparse(n.args[1]):
+                key = "resWrap" if "res_id" in a0 else "atomWrap"
+                facts[key] = [_norm(n.args[0]).replace("array.res_id", "id").replace("atom_id", "id").replace("res_id", "id"),
+                              _norm(n.args[1]).replace("array.res_id", "id").replace("atom_id", "id").replace("res_id", "id"),
+                              _norm(n.args[2]).replace("array.res_id", "id").replace("atom_id", "id").replace("res_id", "id")]
+        if isinstance(n, ast.Call) and ast.unparse(n.func) == "np.full" and len(n.args) == 2 and isinstance(n.args[1], ast.Constant):
+            facts.setdefault("defaultTexts", []).append(n.args[1].value)
+        if isinstance(n, ast.ListComp) and isinstance(n.elt, ast.IfExp) and isinstance(n.elt.body, ast.JoinedStr):
+            # f" {atm}" if len(elem) == 1 and len(atm) < 4 else atm
+            facts["alignRule"] = [_norm(n.elt.test), "".join(v.value if isinstance(v, ast.Constant) else "{}" for v in n.elt.body.values)]
+        if isinstance(n, ast.ListComp) and isinstance(n.elt, ast.IfExp) and "charge" in ast.unparse(n.elt.test):
+            e = n.elt
+            inner = e.orelse
+            facts["chargeText"] = [_norm(e.test), _norm(e.body), _norm(inner.test), _norm(inner.body), _norm(inner.orelse)]
+        if isinstance(n, ast.Assign) and ast.unparse(n.targets[0]) == "is_stack":
+            facts["isStack"] = _norm(n.value)
+        if isinstance(n, ast.Call) and ast.unparse(n.func) == "self.lines.append" and isinstance(n.args[0], ast.Constant):
+            facts["endmdl"] = n.args[0].value
+        if isinstance(n, ast.Subscript) and ast.unparse(n.value) == "bond_array" and isinstance(n.slice, ast.BinOp):
+            terms = []
+
+            def flat(b):
+                if isinstance(b, ast.BinOp) and isinstance(b.op, ast.BitOr):
+                    flat(b.left)
+                    flat(b.right)
+                else:
+                    terms.append(_norm(b))
+            flat(n.slice)
+            facts["carriable"] = terms
+        if isinstance(n, ast.Assign) and ast.unparse(n.targets[0]) == "hetero_indices":
+            facts["heteroIndices"] = _norm(n.value)
+        if isinstance(n, ast.Call) and isinstance(n.func, ast.Attribute) and n.func.attr == "astype" and ast.unparse(n.args[0]) == "np.int64":
+            facts.setdefault("int64Casts", []).append(_norm(n.func.value))
+    fsrc = ast.parse(open(os.path.join(paths.SRC, "biotite/structure/filter.py")).read())
+    for n in fsrc.body:
+        if isinstance(n, ast.Assign) and ast.unparse(n.targets[0]) == "_solvent_list":
+            facts["solventList"] = [e.value for e in n.value.elts]
+    # --- CONECT writer / reader
+    for n in ast.walk(sb):
+        if isinstance(n, ast.Compare) and _norm(n.left) == "n_added" and isinstance(n.ops[0], ast.Eq) and isinstance(n.comparators[0], ast.Constant) \
+                and n.comparators[0].value != 0:
+            facts["conectPerRecord"] = n.comparators[0].value
+        if isinstance(n, ast.JoinedStr):
+            p = _fstring_parts(n)
+            if any(k == "val" for k, a, b in p):
+                facts.setdefault("conectParts", []).append([(a if k == "lit" else "{" + b + "}") for k, a, b in p])
+    for n in ast.walk(gb):
+        if isinstance(n, ast.Call) and ast.unparse(n.func) == "range" and len(n.args) == 3:
+            facts["conectRange"] = [a.value for a in n.args]
+        if isinstance(n, ast.Subscript) and ast.unparse(n.value) == "line" and isinstance(n.slice, ast.Slice):
+            facts.setdefault("conectSlices", []).append([_norm(n.slice.lower), _norm(n.slice.upper)])
+        if isinstance(n, ast.Call) and ast.unparse(n.func) == "np.full":
+            facts["bondMapInit"] = _norm(n.args[1])
+    # --- reader: prefixes, padding, hetero, charge
+    prefixes = {}
+    for fn, nm in ((idx, "index"), (gs, "get_structure"), (gb, "get_bonds")):
+        for n in ast.walk(fn):
+            if isinstance(n, ast.Call) and isinstance(n.func, ast.Attribute) and n.func.attr == "startswith":
+                prefixes.setdefault(nm, [])
+                v = ast.literal_eval(n.args[0])
+                if v not in prefixes[nm]:
+                    prefixes[nm].append(v)
+    facts["prefixes"] = prefixes
+    for n in ast.walk(rd):
+        if isinstance(n, ast.Call) and isinstance(n.func, ast.Attribute) and n.func.attr == "ljust":
+            facts["padWidth"] = n.args[0].value
+    for n in ast.walk(gs):
+        if isinstance(n, ast.Compare) and _norm(n.left) == "line[_record]":
+            facts["heteroTest"] = [type(n.ops[0]).__name__, n.comparators[0].value]
+        if isinstance(n, ast.Compare) and _norm(n.left) == "line[_charge][0]" and isinstance(n.ops[0], ast.In):
+            facts["chargeSigns"] = n.comparators[0].value
+        if isinstance(n, ast.Call) and ast.unparse(n.func) == "np.where" and "charge" in ast.unparse(n.args[0]):
+            facts["chargeBlank"] = [_norm(n.args[0]), n.args[1].value]
+        if isinstance(n, ast.Subscript) and _norm(n.value) == "line[_charge]" and isinstance(n.slice, ast.Slice) and n.slice.step is not None:
+            facts["chargeReversed"] = _norm(n.slice)
+        if isinstance(n, ast.If) and isinstance(n.test, ast.Compare) and _norm(n.test.left) == "altloc":
+            facts.setdefault("altlocModes", []).append(n.test.comparators[0].value)
+        if isinstance(n, ast.If) and isinstance(n.test, ast.Compare) and _norm(n.test.left) == "field":
+            facts.setdefault("extraFields", []).append(n.test.comparators[0].value)
+    # --- model selection
+    facts["modelIndex"] = [_norm(n.test) for n in ast.walk(sel) if isinstance(n, ast.If)] + \
+        [_norm(n.value) for n in ast.walk(sel) if isinstance(n, ast.Assign) and _norm(n.targets[0]) == "model"]
+    facts["modelFilters"] = [_norm(n.value) for n in ast.walk(sel) if isinstance(n, ast.Assign) and _norm(n.targets[0]) == "line_filter"]
+    # --- altloc filters (filter.py)
+    for name in ("filter_first_altloc", "filter_highest_occupancy_altloc"):
+        fn = _find_func(fsrc, name)
+        none_ids, cmp_, start = None, None, None
+        for n in ast.walk(fn):
+            if isinstance(n, ast.Call) and ast.unparse(n.func) == "np.isin":
+                none_ids = [e.value for e in n.args[1].elts]
+            if isinstance(n, ast.Assign) and _norm(n.targets[0]) == "highest" and isinstance(n.value, (ast.UnaryOp, ast.Constant)):
+                start = _norm(n.value)
+            if isinstance(n, ast.Compare) and _norm(n.left) == "occupancy_sum":
+                cmp_ = type(n.ops[0]).__name__ + ":" + _norm(n.comparators[0])
+            if isinstance(n, ast.For) and "sorted" in ast.unparse(n.iter):
+                facts["altlocIdOrder"] = _norm(n.iter)
+        facts["altlocNone:" + name] = none_ids
+        if cmp_:
+            facts["altlocBest"] = [start, cmp_]
+    # --- the compatibility check: guards and error classes
+    facts["checkGuards"] = [_norm(n.test) for n in chk.body if isinstance(n, ast.If)] + \
+        [_norm(m.test) for n in chk.body if isinstance(n, ast.If) for m in n.body if isinstance(m, ast.If)]
+    facts["numberCheck"] = [_norm(n.test) for n in ast.walk(numchk) if isinstance(n, ast.If)]
+    facts["raises"] = {"_check_pdb_compatibility": sorted(set(_raises(chk))), "_check_number_columns": sorted(set(_raises(numchk))),
+                       "_get_atom_record_indices_for_model": sorted(set(_raises(sel))), "_get_model_length": sorted(set(_raises(gml))),
+                       "_get_bonds": sorted(set(_raises(gb))), "get_structure": sorted(set(_raises(gs)))}
+    # --- default argument values at every entry level
+    ctree = ast.parse(open(os.path.join(paths.SRC, "biotite/structure/io/pdb/convert.py")).read())
+    facts["defaults"] = {"PDBFile.get_structure": _defaults(gs), "PDBFile.set_structure": _defaults(ss),
+                         "PDBFile.get_coord": _defaults(_find_func(tree, "get_coord")), "PDBFile.get_b_factor": _defaults(_find_func(tree, "get_b_factor")),
+                         "pdb.get_structure": _defaults(_find_func(ctree, "get_structure")), "pdb.set_structure": _defaults(_find_func(ctree, "set_structure"))}
+    wrappers = {}
+    for name in ("get_structure", "set_structure"):
+        fn = _find_func(ctree, name)
+        calls = [n for n in ast.walk(fn) if isinstance(n, ast.Call) and isinstance(n.func, ast.Attribute) and n.func.attr == name]
+        wrappers[name] = [_norm(a) for a in calls[0].args] if calls else None
+    facts["wrapperForwards"] = wrappers
+    # --- hybrid36.pyx: the code lines of the five functions (comments, doc strings, blank lines removed)
+    pyx = {name: _pyx_function(psrc, name) for name in
+           ("encode_hybrid36", "_encode_base36", "decode_hybrid36", "_decode_base36", "max_hybrid36_number")}
+    required = ["recordNames", "atomWrap", "resWrap", "defaultTexts", "alignRule", "chargeText", "isStack", "endmdl", "carriable", "heteroIndices",
+                "int64Casts", "solventList", "conectPerRecord", "conectParts", "conectRange", "conectSlices", "bondMapInit", "padWidth", "heteroTest",
+                "chargeSigns", "chargeBlank", "chargeReversed", "altlocModes", "extraFields", "altlocBest", "altlocIdOrder"]
+    missing = [k for k in required if not facts.get(k)]
+    if missing:
+        raise ValueError(f"file.py / filter.py: constructs not found in the expected shape: {missing}")
+
+    def pairs(d):
+        return "[" + ", ".join(f"({_lstr(k)}, {_llist(v)})" for k, v in d.items()) + "]"
+
+    def optpairs(lst):
+        return "[" + ", ".join(f"({_lstr(a)}, {_lstr(b if b is not None else '<required>')})" for a, b in lst) + "]"
+    out = ["/- REGENERATED on every run by harness/props/c07.py (gen_logic) from pdb/file.py, pdb/convert.py, filter.py and hybrid36.pyx. Do not edit. -/",
+           "namespace BiotiteModel.Gen.C07Logic",
+           f"def recordNames : List String := {_llist(facts['recordNames'])}",
+           f"def atomWrap : List String := {_llist(facts['atomWrap'])}",
+           f"def resWrap : List String := {_llist(facts['resWrap'])}",
+           f"def defaultTexts : List String := {_llist(facts['defaultTexts'])}",
+           f"def alignRule : List String := {_llist(facts['alignRule'])}",
+           f"def chargeText : List String := {_llist(facts['chargeText'])}",
+           f"def isStack : String := {_lstr(facts['isStack'])}",
+           f"def endmdl : String := {_lstr(facts['endmdl'])}",
+           f"def carriable : List String := {_llist(facts['carriable'])}",
+           f"def heteroIndices : String := {_lstr(facts['heteroIndices'])}",
+           f"def int64Casts : List String := {_llist(facts['int64Casts'])}",
+           f"def solventList : List String := {_llist(facts['solventList'])}",
+           f"def conectPerRecord : Nat := {facts['conectPerRecord']}",
+           "def conectParts : List (List String) := [" + ", ".join(_llist(x) for x in sorted(facts["conectParts"])) + "]",
+           f"def conectRange : List Nat := [{', '.join(str(x) for x in facts['conectRange'])}]",
+           "def conectSlices : List (List String) := [" + ", ".join(_llist(x) for x in sorted(facts["conectSlices"])) + "]",
+           f"def bondMapInit : String := {_lstr(facts['bondMapInit'])}",
+           f"def prefixes : List (String × List String) := {pairs({k: [x if isinstance(x, str) else '|'.join(x) for x in v] for k, v in facts['prefixes'].items()})}",
+           f"def padWidth : Nat := {facts['padWidth']}",
+           f"def heteroTest : List String := {_llist(facts['heteroTest'])}",
+           f"def chargeSigns : String := {_lstr(facts['chargeSigns'])}",
+           f"def chargeBlank : List String := {_llist(facts['chargeBlank'])}",
+           f"def chargeReversed : String := {_lstr(facts['chargeReversed'])}",
+           f"def altlocModes : List String := {_llist(facts['altlocModes'])}",
+           f"def extraFields : List String := {_llist(facts['extraFields'])}",
+           f"def modelIndex : List String := {_llist(facts['modelIndex'])}",
+           f"def modelFilters : List String := {_llist(facts['modelFilters'])}",
+           f"def altlocNoneFirst : List String := {_llist(facts['altlocNone:filter_first_altloc'])}",
+           f"def altlocNoneOccupancy : List String := {_llist(facts['altlocNone:filter_highest_occupancy_altloc'])}",
+           f"def altlocBest : List String := {_llist(facts['altlocBest'])}",
+           f"def altlocIdOrder : String := {_lstr(facts['altlocIdOrder'])}",
+           f"def checkGuards : List String := {_llist(facts['checkGuards'])}",
+           f"def numberCheck : List String := {_llist(facts['numberCheck'])}",
+           f"def raises : List (String × List String) := {pairs(facts['raises'])}",
+           "def defaults : List (String × List (String × String)) := [" + ", ".join(
+               f"({_lstr(k)}, {optpairs(v)})" for k, v in facts["defaults"].items()) + "]",
+           f"def wrapperForwards : List (String × List String) := {pairs(facts['wrapperForwards'])}",
+           "/-- hybrid36.pyx, code lines per function -/"] + [
+        f"def pyx_{k.strip('_')} : List String := {_llist(v)}" for k, v in pyx.items()] + ["end BiotiteModel.Gen.C07Logic", ""]
+    return "\n".join(out)
 
 
 # ---------------------------------------------------------------- structures <-> ops
